@@ -174,6 +174,122 @@ pub fn check_key_len(c: &KeyLenCase, info: &mut CaseInfo) -> Result<(), String> 
 	Ok(())
 }
 
+/// Every signature algorithm `SignatureAlgorithm::from_oid` hands out for a list of registered
+/// signature OIDs (the public statics and whatever else the lookup knows), with every fixture key it
+/// loads under: the artefacts must be canonical DER, AlgorithmIdentifier parameters included.
+#[derive(Clone, Debug, Serialize, Deserialize, PartialEq, Eq, Hash)]
+pub struct AlgOidCase {
+	pub oid: Vec<u64>,
+	pub key: KeyAlg,
+}
+
+const SIGNATURE_OIDS: [&[u64]; 22] = [
+	&[1, 2, 840, 113549, 1, 1, 1],
+	&[1, 2, 840, 113549, 1, 1, 4],
+	&[1, 2, 840, 113549, 1, 1, 5],
+	&[1, 2, 840, 113549, 1, 1, 10],
+	&[1, 2, 840, 113549, 1, 1, 11],
+	&[1, 2, 840, 113549, 1, 1, 12],
+	&[1, 2, 840, 113549, 1, 1, 13],
+	&[1, 2, 840, 113549, 1, 1, 14],
+	&[1, 2, 840, 10045, 2, 1],
+	&[1, 2, 840, 10045, 4, 1],
+	&[1, 2, 840, 10045, 4, 3, 1],
+	&[1, 2, 840, 10045, 4, 3, 2],
+	&[1, 2, 840, 10045, 4, 3, 3],
+	&[1, 2, 840, 10045, 4, 3, 4],
+	&[1, 3, 101, 112],
+	&[1, 3, 101, 113],
+	&[2, 16, 840, 1, 101, 3, 4, 3, 2],
+	&[2, 16, 840, 1, 101, 3, 4, 3, 10],
+	&[2, 16, 840, 1, 101, 3, 4, 3, 12],
+	&[2, 16, 840, 1, 101, 3, 4, 3, 14],
+	&[2, 16, 840, 1, 101, 3, 4, 3, 17],
+	&[1, 2, 840, 10040, 4, 3],
+];
+
+fn alg_oid_cases(_: &RunCfg) -> Vec<AlgOidCase> {
+	let mut v = Vec::new();
+	for oid in SIGNATURE_OIDS {
+		for key in keys::available_algs() {
+			if matches!(key, KeyAlg::Rsa3072 | KeyAlg::Rsa4096 | KeyAlg::Rsa6144) {
+				continue;
+			}
+			v.push(AlgOidCase { oid: oid.to_vec(), key });
+		}
+	}
+	v
+}
+
+/// RFC 4055 RSASSA-PSS-params: every field has a DEFAULT, which DER leaves out.
+fn lint_pss_params(params: &[u8], l: &Lints) {
+	let Ok(t) = der::read_single(params, l, "RSASSA-PSS-params") else { return };
+	let Ok(fields) = der::children(t.content, l) else { return };
+	for f in fields {
+		match f.raw.first() {
+			Some(0xa2) if f.content == [0x02, 0x01, 0x14] => l.add("RSASSA-PSS-params: saltLength 20 (the DEFAULT) is encoded".to_string()),
+			Some(0xa3) if f.content == [0x02, 0x01, 0x01] => l.add("RSASSA-PSS-params: trailerField 1 (the DEFAULT) is encoded".to_string()),
+			Some(0xa0) if f.content.windows(5).any(|w| w == [0x2b, 0x0e, 0x03, 0x02, 0x1a]) => l.add("RSASSA-PSS-params: hashAlgorithm sha1 (the DEFAULT) is encoded".to_string()),
+			_ => {},
+		}
+	}
+}
+
+#[cfg(feature = "crypto")]
+pub fn check_alg_oid(c: &AlgOidCase, info: &mut CaseInfo) -> Result<(), String> {
+	let alg = match no_panic(|| rcgen::SignatureAlgorithm::from_oid(&c.oid)).map_err(|p| format!("{p} in SignatureAlgorithm::from_oid"))? {
+		Ok(a) => a,
+		Err(_) => {
+			info.class("oid-not-registered");
+			return Ok(());
+		},
+	};
+	let fx = keys::fixture(&KeySpec { alg: c.key, idx: 0, rsa_hash: RsaHash::Sha256, remote: false });
+	let loaded = no_panic(|| rcgen::KeyPair::from_pkcs8_der_and_sign_algo(&pki_types::PrivatePkcs8KeyDer::from(fx.pk8.as_slice()), alg));
+	let key = match loaded {
+		Ok(Ok(k)) => k,
+		// a key that does not fit, or an algorithm the loader does not serve (a documented panic for
+		// algorithms outside the public statics is C10's matter)
+		_ => {
+			info.class("key-does-not-load-under-it");
+			return Ok(());
+		},
+	};
+	info.nontrivial = true;
+	info.class(format!("algorithm:{:?}", alg));
+	let mut spec = CertSpec::minimal();
+	spec.is_ca = IsCaSpec::CaUnconstrained;
+	let cert = mk::cert_params(&spec)?.self_signed(&key).map_err(|e| format!("self_signed: {e}"))?;
+	let l = Lints::new();
+	let d = x509::parse_cert(cert.der(), &l).map_err(|e| format!("independent decoder rejects the certificate: {e}"))?;
+	for a in [&d.inner_alg, &d.outer_alg, &d.spki.alg] {
+		if a.oid == [1, 2, 840, 113549, 1, 1, 10] {
+			if let Some(p) = &a.params_raw {
+				lint_pss_params(p, &l);
+			}
+		}
+	}
+	fail_on_lints(l.take(), &format!("certificate under the algorithm registered for {:?}", c.oid))?;
+	let mut cs = CertSpec::minimal();
+	cs.serial = None;
+	let csr = mk::cert_params(&cs)?.serialize_request(&key).map_err(|e| format!("serialize_request: {e}"))?;
+	let l = Lints::new();
+	let r = x509::parse_csr(csr.der(), &l).map_err(|e| format!("independent decoder rejects the CSR: {e}"))?;
+	for a in [&r.outer_alg, &r.spki.alg] {
+		if a.oid == [1, 2, 840, 113549, 1, 1, 10] {
+			if let Some(p) = &a.params_raw {
+				lint_pss_params(p, &l);
+			}
+		}
+	}
+	fail_on_lints(l.take(), "CSR")
+}
+
+#[cfg(not(feature = "crypto"))]
+pub fn check_alg_oid(_: &AlgOidCase, _: &mut CaseInfo) -> Result<(), String> {
+	Ok(())
+}
+
 /// A batch of INTEGER byte strings, encoded as the serial numbers of one CRL and as its CRL
 /// number (cheap: one signature per batch).
 #[derive(Clone, Debug, Serialize, Deserialize, PartialEq, Eq, Hash)]
@@ -287,7 +403,7 @@ pub fn attr_order_cases(_cfg: &RunCfg) -> Vec<CsrCase> {
 pub fn def() -> PropertyDef {
 	PropertyDef {
 		id: "C04",
-		rule: "Certificates, CSRs, CRLs and SubjectPublicKeyInfos generated over the C02/C07/C08 parameter spaces are walked by the harness's strict schema-aware DER validator from the outermost element into every extension value (minimal lengths/INTEGERs/OIDs, BOOLEAN 0xFF, DEFAULTs absent, BIT STRING padding and named-bit lists, SET OF order, string alphabets, RFC 5280 time forms, no trailing bytes); caller-supplied DER is compared byte for byte. Sweeps: 511 key-usage subsets, every 0/1/2-byte serial and CRL number (2-byte: 5 leading patterns in quick, all in thorough) plus boundary 3/4/20/21/22-byte values, every ordering of <= 4 CSR attributes, the automatic serial for every value of the two leading octets of the key digest it is cut from (65 536 searched opaque keys plus rare three-octet patterns), and opaque remote public keys of every length 0..300 octets and around 65 535 per algorithm identifier (SPKI, certificate, CSR). Non-trivial = artefact contains a value-dependent form (key usage, basic constraints, explicit serial, offset time, custom content, >= 2 attributes, CRL entries).",
+		rule: "Certificates, CSRs, CRLs and SubjectPublicKeyInfos generated over the C02/C07/C08 parameter spaces are walked by the harness's strict schema-aware DER validator from the outermost element into every extension value (minimal lengths/INTEGERs/OIDs, BOOLEAN 0xFF, DEFAULTs absent, BIT STRING padding and named-bit lists, SET OF order, string alphabets, RFC 5280 time forms, no trailing bytes); caller-supplied DER is compared byte for byte. Sweeps: 511 key-usage subsets, every 0/1/2-byte serial and CRL number (2-byte: 5 leading patterns in quick, all in thorough) plus boundary 3/4/20/21/22-byte values, every ordering of <= 4 CSR attributes, the automatic serial for every value of the two leading octets of the key digest it is cut from (65 536 searched opaque keys plus rare three-octet patterns), and opaque remote public keys of every length 0..300 octets and around 65 535 per algorithm identifier (SPKI, certificate, CSR); every algorithm SignatureAlgorithm::from_oid hands out for 22 registered signature OIDs, with every fixture key that loads under it (AlgorithmIdentifier parameters with encoded DEFAULTs are flagged). Non-trivial = artefact contains a value-dependent form (key usage, basic constraints, explicit serial, offset time, custom content, >= 2 attributes, CRL entries).",
 		assumptions: vec!["the harness DER validator implements X.690 §10-11 and the RFC 5280 ASN.1 module correctly (unit-tested on positive and negative vectors)"],
 		subs: vec![
 			prop_sub("cert", 64_000, 1_000_000, || cert_case(CertGenOpts::FULL, true), check_cert_case),
@@ -307,6 +423,7 @@ pub fn def() -> PropertyDef {
 			sweep_sub("attr-order-sweep", attr_order_cases, check_csr_case),
 			sweep_sub("auto-serial-digest-sweep", crate::props::c05::serial_sweep_cases, check_serial_sweep),
 			sweep_sub("public-key-length-sweep", key_len_cases, check_key_len),
+			sweep_sub("algorithm-oid-sweep", alg_oid_cases, check_alg_oid),
 			sweep_sub("spki-sweep", |_| {
 				let mut v = Vec::new();
 				for alg in keys::available_algs() {
